@@ -343,7 +343,7 @@ is_valid_option(spif_charptr_t opt)
             return TRUE;
         }
     } else {
-        if (find_short_option(*opt) >= 0) {
+        if (*opt && find_short_option(*opt) >= 0) {
             return TRUE;
         }
     }
